@@ -26,7 +26,9 @@ git apply "$patch" || { echo "APPLY FAILED" >>"$log"; exit 2; }
 go build ./... >>"$log" 2>&1 && echo "BUILD ok" >>"$log" || echo "BUILD FAILED" >>"$log"
 run_demo patched; patched_rc=$?
 # full existing suite of the changed package(s), run from a scratch dir
-for p in $(git diff --name-only | xargs -n1 dirname | sort -u); do
+dirs=$(git diff --name-only | xargs -n1 dirname | sort -u)
+case "$dirs" in *skiplist*) dirs="$dirs ." ;; esac
+for p in $(echo $dirs | tr ' ' '\n' | sort -u); do
   (cd "$wt/$p" && go test -vet=off -c -o "$scratch/suite.test" . >>"$log" 2>&1)
   (cd "$scratch" && timeout 3000 ./suite.test -test.count=1 -test.timeout 45m >"$scratch/suite.out" 2>&1); rc=$?
   echo "SUITE[$p] exit=$rc $(grep -c '^--- FAIL' "$scratch/suite.out") failures: $(grep '^--- FAIL' "$scratch/suite.out" | tr '\n' ' ')" >>"$log"
